@@ -472,7 +472,15 @@ func (c12) Run(c core.Case) core.Outcome {
 				break
 			}
 		}
-		return fail(pick.sig, pick.msg+fmt.Sprintf(" (%d completeness problem(s) in this document)", len(probs)), doc)
+		res := fail(pick.sig, pick.msg+fmt.Sprintf(" (%d completeness problem(s) in this document)", len(probs)), doc)
+		alsoSeen := map[string]bool{pick.sig: true}
+		for _, p := range probs {
+			if !alsoSeen[p.sig] {
+				alsoSeen[p.sig] = true
+				res.Also = append(res.Also, core.AlsoViolation{Sig: cs.Format + "|" + p.sig, Violation: "[" + cs.Format + "] " + p.msg})
+			}
+		}
+		return res
 	}
 	if cs.Reimp {
 		text, errs := runImport("doc.yaml", doc, "")
